@@ -109,8 +109,22 @@ def main():
                        f"`python -m vf {a.prop} --tier {a.tier}` with VERIF_REPO=<scratch>")
         d = ROOT / "seeded" / a.seed
         d.mkdir(parents=True, exist_ok=True)
-        shutil.copy(a.patch, d / "patch.diff")
-        shutil.copy(a.demo, d / "demo.py")
+        if Path(a.patch).resolve() != (d / "patch.diff").resolve():
+            shutil.copy(a.patch, d / "patch.diff")
+        if Path(a.demo).resolve() != (d / "demo.py").resolve():
+            shutil.copy(a.demo, d / "demo.py")
+        old = d / "meta.json"
+        if old.exists():
+            prev = json.loads(old.read_text())
+            if "suite" in prev and "suite" not in meta:
+                meta["suite"] = prev["suite"]
+            if prev.get("detected") is False and meta["detected"]:
+                meta["first_run_missed"] = True
+                meta["history"] = prev.get("history", []) + [
+                    {"detected": False, "checks": prev.get("checks"), "note": "before the check was strengthened"}]
+            elif "history" in prev:
+                meta["history"] = prev["history"]
+                meta["first_run_missed"] = prev.get("first_run_missed", False)
         (d / "meta.json").write_text(json.dumps(meta, indent=1) + "\n")
         ok = (meta["demo_clean_exit"] == 0 and meta["demo_patched_exit"] != 0 and meta["imports"]
               and (a.skip_suite or not meta["suite"]["newly_failing"]))
